@@ -1,37 +1,7 @@
 (* MacroProofs.v — C16: the emitted code evaluates to the run-time parse result *)
-From UL Require Import Bytes Subtags LangId Ext Macros Grammar LangIdSpec BytesProofs SubtagProofs PackProofs SortProofs LangIdProofs LangIdAlgebra CanonProofs LikelyProofs.
+From UL Require Import Bytes Subtags LangId Ext Macros Grammar LangIdSpec BytesProofs SubtagProofs PackProofs SortProofs LangIdProofs LangIdAlgebra CanonProofs RawProofs.
 From Coq Require Import Lia ZifyBool ZifyN.
 Open Scope N_scope.
-
-Lemma forallb_small_of p t : (forall b, p b = true -> small_byte b = true) -> forallb p t = true -> small t = true.
-Proof. intros H. apply forallb_imp. exact H. Qed.
-
-Lemma canon_lang_raw l : canon_lang (Some l) = true -> via_raw 8 l = l.
-Proof.
-  cbn [canon_lang]. intros H. apply andb_true_iff in H as [H _]. apply andb_true_iff in H as [H _].
-  unfold lang_tok, len_in in H. apply andb_true_iff in H as [Ha Hl].
-  apply from_raw_pack; [apply (forallb_small_of _ _ alpha_small Ha)|lia].
-Qed.
-Lemma canon_script_raw s : canon_script s = true -> via_raw 4 s = s.
-Proof.
-  unfold canon_script, script_tok. intros H. apply andb_true_iff in H as [H _]. apply andb_true_iff in H as [Ha Hl].
-  apply from_raw_pack; [apply (forallb_small_of _ _ alpha_small Ha)|lia].
-Qed.
-Lemma canon_region_raw r : canon_region r = true -> via_raw 4 r = r.
-Proof.
-  unfold canon_region, region_tok. intros H. apply andb_true_iff in H as [H _].
-  apply orb_true_iff in H as [H|H]; apply andb_true_iff in H as [Ha Hl];
-    (apply from_raw_pack; [|lia]); [apply (forallb_small_of _ _ alpha_small Ha)|apply (forallb_small_of _ _ digit_small Ha)].
-Qed.
-Lemma variant_tok_small v : variant_tok v = true -> small v = true /\ (length v <= 8)%nat.
-Proof.
-  unfold variant_tok, len_in. intros H. apply orb_true_iff in H as [H|H].
-  - apply andb_true_iff in H as [Ha Hl]. split; [apply (forallb_small_of _ _ alnum_small Ha)|lia].
-  - destruct v as [|c r]; [discriminate|]. apply andb_true_iff in H as [H Hl]. apply andb_true_iff in H as [Hc Hr].
-    split; [|cbn [length]; lia]. cbn [small forallb]. rewrite (digit_small _ Hc). apply (forallb_small_of _ _ alnum_small Hr).
-Qed.
-Lemma canon_variant_raw v : canon_variant v = true -> via_raw 8 v = v.
-Proof. unfold canon_variant. intros H. apply andb_true_iff in H as [H _]. destruct (variant_tok_small _ H). apply from_raw_pack; assumption. Qed.
 
 Theorem macro_lang_ok lit v : language_from_bytes lit = Ok v -> macro_lang lit = MValue v.
 Proof.
